@@ -819,6 +819,9 @@ def contains(it, container, x):
                     container.arr = it.fresh('hist_set', container.arr.sort())
             it.path.info.setdefault('needs_invariant', 'a set attribute filled by earlier calls was tested for membership')
         _fix_emptyset(it, container, x)
+        mem = set_members(container)
+        if mem is not None and _concrete_elem(x) and getattr(container, 'history', None) is None:
+            return any(type(y) is type(x) and y == x for y in mem)
         return container.arr[elem_term(it, x, container.elem_sort)]
     if isinstance(container, SymSeq):
         t = container.term
@@ -1666,11 +1669,37 @@ def _unsup(msg):
     raise Unsupported(msg)
 
 
+def _concrete_elem(x):
+    return isinstance(x, (str, int, bool)) or x is None
+
+
+def _cur_arr(s):
+    return s._arr if isinstance(s, EmptySet) else s.arr
+
+
+def set_members(s):
+    """the concrete members of a set that was built from (and only ever extended by) concrete scalars, else None; tied to the
+    identity of the array term, so any other assignment to s.arr (a loop havoc, a history) invalidates it"""
+    m = getattr(s, '_members', None)
+    if m is not None and m[0] is _cur_arr(s):
+        return m[1]
+    return None
+
+
+def _note_members(s, lst):
+    s._members = (_cur_arr(s), lst) if lst is not None else None
+
+
 def _set_add(it, s, x):
     if it.term_mode:
         raise Unsupported('mutation in term mode')
+    before = set_members(s)
     e = elem_term(it, x, s.elem_sort)
     s.arr = z3.Store(s.arr, e, z3.BoolVal(True))
+    if before is not None and _concrete_elem(x):
+        _note_members(s, before + ([x] if not any(type(y) is type(x) and y == x for y in before) else []))
+    else:
+        _note_members(s, None)
     it.emit(Ev('SetAdd', obj=s, elem=e))
 
 
@@ -1726,7 +1755,14 @@ def make_set(it, items, elem_sort=None):
     arr = z3.K(elem_sort, z3.BoolVal(False))
     for x in items:
         arr = z3.Store(arr, elem_term(it, x, elem_sort), z3.BoolVal(True))
-    return SetV(arr, elem_sort)
+    r = SetV(arr, elem_sort)
+    if all(_concrete_elem(x) for x in items):
+        mem = []
+        for x in items:
+            if not any(type(y) is type(x) and y == x for y in mem):
+                mem.append(x)
+        _note_members(r, mem)
+    return r
 
 
 class EmptySet(SetV):
@@ -1736,16 +1772,20 @@ class EmptySet(SetV):
         Obj.__init__(self)
         self._arr = None
         self.elem_sort = None
+        self._members = (None, [])      # (a fresh set() has no members)
 
     havoc_name = None
 
     def _fix(self, sort):
         if self.elem_sort is None:
+            known = set_members(self)
             self.elem_sort = sort
             if self.havoc_name is not None:
                 self._arr = z3.Const(self.havoc_name, z3.ArraySort(sort, BoolS))
+                self._members = None
             else:
                 self._arr = z3.K(sort, z3.BoolVal(False))
+                _note_members(self, known)
 
     @property
     def arr(self):
@@ -2426,6 +2466,8 @@ def _b_len(it, v):
     if isinstance(v, SetV):
         if v.elem_sort is None:
             return 0
+        if set_members(v) is not None:
+            return len(set_members(v))
         f = z3.Function('set_card_%s' % v.elem_sort, v.arr.sort(), IntS)
         n = f(v.arr)
         it.assume(n >= 0)
